@@ -2,7 +2,7 @@
 # Runs the repository's whole suite (guard off) and compares with the 242 tests that passed before any fix (reference list in /verif/bin/full_base_pass.json).
 cd /repo || exit 2
 export GOFLAGS=-mod=mod GOPROXY=off GOSUMDB=off
-out=${1:-/tmp/w/full_now.json}
+out=${1:-$(mktemp /tmp/full_now.XXXXXX.json)}
 go test -json -vet=off -count=1 -timeout 25m ./... > $out 2>&1
 python3 - "$out" <<'PY'
 import json,sys
@@ -17,3 +17,4 @@ print(len(p),'pass',len(f),'fail')
 print('failing:',sorted(f))
 print('passed before but not now:',sorted(ref-p))
 PY
+[ -n "$1" ] || rm -f "$out"
